@@ -168,20 +168,24 @@ func (d *vDB) del(key []byte) {
 	d.vals = d.vals[:len(d.vals)-1]
 }
 
-// physical marks one physical write; it panics with vCrash at the crash point.
-func (d *vDB) physical(size int) {
+// physical marks one physical write and reports whether it reaches the store: from the crash
+// point on, the process is considered stopped — every later write is dropped (the interrupted
+// operation keeps running in memory, but nothing it does can reach the store image any more, and
+// the harness discards its in-memory state and its result).
+func (d *vDB) physical(size int) bool {
 	if d.crashed {
-		panic(vCrash{})
+		return false
 	}
 	if d.crashAt >= 0 && d.writes >= d.crashAt {
 		d.crashed = true
-		panic(vCrash{})
+		return false
 	}
 	d.writes++
 	d.writeSizes = append(d.writeSizes, size)
 	if d.openIters > 0 {
 		d.writeInIter++
 	}
+	return true
 }
 
 func (d *vDB) Set(key, value []byte) error {
@@ -194,9 +198,10 @@ func (d *vDB) Set(key, value []byte) error {
 	if d.fault("set") {
 		return vErrInjected
 	}
-	d.physical(len(key) + len(value))
-	d.directWrites++
-	d.put(key, value)
+	if d.physical(len(key) + len(value)) {
+		d.directWrites++
+		d.put(key, value)
+	}
 	return nil
 }
 
@@ -207,9 +212,10 @@ func (d *vDB) Delete(key []byte) error {
 	if d.fault("delete") {
 		return vErrInjected
 	}
-	d.physical(len(key))
-	d.directWrites++
-	d.del(key)
+	if d.physical(len(key)) {
+		d.directWrites++
+		d.del(key)
+	}
 	return nil
 }
 
@@ -377,10 +383,14 @@ func (b *vBatch) Write() error {
 	if b.d.fault("batchwrite") {
 		return vErrInjected
 	}
+	reach := true
 	if len(b.ops) > 0 {
-		b.d.physical(b.size)
+		reach = b.d.physical(b.size)
 	}
 	for _, op := range b.ops {
+		if !reach {
+			break
+		}
 		if op.del {
 			b.d.del(op.key)
 		} else {
@@ -407,11 +417,12 @@ func (b *vBatch) GetByteSize() (int, error) {
 	return b.size, nil
 }
 
-// vCatchCrash runs f and reports whether it was stopped by the crash point.
-func vCatchCrash(f func()) (crashed bool) {
+// catchCrash runs f and reports whether the crash point was reached. After the crash point the
+// operation runs on without effect on the store; whatever it returns or panics with is discarded.
+func (d *vDB) catchCrash(f func()) (crashed bool) {
 	defer func() {
 		if r := recover(); r != nil {
-			if _, ok := r.(vCrash); ok {
+			if d.crashed {
 				crashed = true
 				return
 			}
@@ -419,5 +430,5 @@ func vCatchCrash(f func()) (crashed bool) {
 		}
 	}()
 	f()
-	return false
+	return d.crashed
 }
